@@ -16,7 +16,7 @@ func init() {
 		Parts: func(tier string) []core.Part {
 			return []core.Part{
 				{Name: "hook", Bin: "plain", Batches: 1, TimeoutS: 1200},
-				{Name: "socket", Bin: "raceov", Batches: c09Batches(tier), Parallel: 4, TimeoutS: 900},
+				{Name: "socket", Bin: "raceov", Batches: c09Batches(tier), Parallel: 4, TimeoutS: 900, Env: []string{"VERIF_YIELD=1"}},
 			}
 		},
 		Assumptions: []string{
